@@ -157,8 +157,8 @@ def parse_C(sec):
 def project(prop, op, line):
     """the part of a world output line that property `prop` is about; a difference
     outside it is another property's business"""
-    if line.startswith("crash") or line in ("skipped", "bad-op"):
-        return line
+    if line.startswith("crash") or line in ("skipped", "bad-op") or "MODEL-" in line:
+        return line     # (MODEL-…: the model's own consistency flags; never equal to an implementation line)
     if op == "rewrite":
         return "rv=0" if line.startswith("rv=0") else line
     if op in ("locks", "rxeval", "fault", "dnsqx"):
